@@ -49,6 +49,7 @@ def handle (st : DrvState) (line : String) : DrvState × String :=
     if op.startsWith "gw." then
       let (g, out) := handleGw st.gw (op :: rest)
       ({ st with gw := g }, out)
+    else if op.startsWith "txt." then (st, handleTxt (op :: rest))
     else if op.startsWith "rt." then
       let (r, out) := handleRt st.rt (op :: rest)
       ({ st with rt := r }, out)
